@@ -163,7 +163,10 @@ def known_class(pid, case, impl_obs, model_obs):
     for f in vlib.load_findings().get("findings", []):
         if f.get("property") == pid and f.get("status") == "open":
             rec = f.get("case_prefix")
-            if rec and case.startswith(rec):
+            # the implementation's observation must be the documented kind of failure (obs_prefix), so that another
+            # failure on an input of the known class (a panic, a different relation failing) is still reported
+            want = f.get("obs_prefix")
+            if rec and case.startswith(rec) and (not want or impl_obs.startswith(want)):
                 return f
     return None
 
@@ -215,13 +218,13 @@ def run(pid, tier, seed):
             h_dev, hout2 = vlib.build_harness(cfg["harness"], profile="dev")
             if h_dev is None:
                 h_exe, hout = None, hout2
-    if gerr and cfg.get("uses_gen"):
+    import pin
+    if gerr and (cfg.get("uses_gen") or pid in pin.PINS):
         coq["ok"] = False
         coq["failed"] = "translator could not regenerate coq/Gen from the current source: " + gerr
     # configuration pin (tools/pin.py): table entries and run-number arms have no specification in the repository;
     # the property was established for the pinned configuration, a regenerated configuration that differs is a broken
     # correspondence (reported with the changed definitions; `./check --repin` after a reviewed, deliberate change)
-    import pin
     pin_diffs = pin.compare(pid) if not gerr else []
     if pin_diffs:
         coq["ok"] = False
@@ -297,7 +300,8 @@ def run(pid, tier, seed):
         outcome[i.split(" ", 1)[0]] += 1
         if nt == "1":
             distinct.add(c)
-        if i != m:
+        if i != m or i == "unknown-case":
+            # a case line no module recognises must not count as agreement
             diffs.append((c, i, m, label))
     if impl_dev is not None:
         # the build with overflow checks must behave exactly like the plain release build (and like the model)
@@ -307,7 +311,7 @@ def run(pid, tier, seed):
                               mt.rsplit(" ", 1)[0] + " [profile difference]"))
     known_hits = collections.OrderedDict()
     for c, i, m, label in diffs:
-        kf = known_class(pid, c, i, m)
+        kf = None if label.endswith("[profile difference]") else known_class(pid, c, i, m)
         if kf is not None:
             known_hits.setdefault(kf["id"], (kf, c))
             continue
@@ -326,7 +330,7 @@ def run(pid, tier, seed):
         if coq["bad_axioms"]:
             what.append("axioms not in allowlist: " + ", ".join(coq["bad_axioms"]))
         if not coq["ok"]:
-            if pin_diffs or (gerr and cfg.get("uses_gen")):
+            if pin_diffs or (gerr and (cfg.get("uses_gen") or pid in pin.PINS)):
                 what.append("correspondence with the source no longer checks: %s" % coq["failed"])
             else:
                 what.append("theorem(s) of Props/%s.v no longer check: %s" % (pid, coq["failed"]))
